@@ -185,7 +185,7 @@ fn one_case(run: &Run, case: u64) {
 
 pub fn run(tier: Tier, replay: Option<Value>) -> i32 {
     let run = Run::new("C18", "exploration", tier, replay);
-    run.par_cases(tier.pick(2500, 50000), super::threads(), |c| one_case(&run, c));
+    run.par_cases(tier.pick(2500, 250000), super::threads(), |c| one_case(&run, c));
     run.finish(
         "generated trees S0 backed up with default options; diff(version, S0) must be empty (and all-unchanged with include_unchanged); then 1-6 mutations (content with new mtime or size, mtime only, chmod, chown as root, file<->dir swaps, add/remove/rename of files, dirs and symlinks, retargeted links) give S1 and diff(version, S1) must equal, in apath order and with the right sigil, the classification computed from the two lstat snapshots (added / deleted / changed iff kind, owner, mode, file size or mtime, or link target differ); the next backup's change callback, restricted to files, must name the same added, changed and deleted sets. Non-trivial = >= 2 real differences; distinct by the difference list.",
         &["directory and symlink mtimes are not significant (as in the statement)"],
